@@ -287,6 +287,8 @@ func (cr *checkRun) handleFailure(full string, rep *FuncReport, o *Oblig) {
 		rp := replayObligation(cr, full, o)
 		if !rp.reproduced {
 			cr.undecided = append(cr.undecided, o.Name+" ("+o.Res.Status+"; not in the claimed registry, no reproducing input)")
+			cr.nObl-- // not part of the claimed set
+			fmt.Printf("UNDECIDED (not claimed, not counted): %s %s\n", o.Name, o.Res.Status)
 			return
 		}
 		cr.viol = append(cr.viol, violation{Obligation: o.Name, Kind: o.Kind, Unit: full, Detail: o.Res.Status, Replay: rp.path, Reproduced: true, Input: rp.input})
